@@ -117,6 +117,13 @@ WCall(x) ==
     \cup {NCall("add", FALSE, <<x, NVar("n1")>>), NCall("add", FALSE, <<NVar("sn"), x>>),
           NCall("cat", FALSE, <<NVar("s"), x>>), NCall("cat", TRUE, <<x>>), NCall("cat", TRUE, <<NVar("s"), x>>),
           NCall("add", TRUE, <<x>>), NCall("id", TRUE, <<x>>), NCall("fail", FALSE, <<>>), NCall("cat", FALSE, <<>>)}
+    \* try / can: the first argument that succeeds; arguments that fail for some operands only
+    \cup {NCall("try", FALSE, <<x, NVar("s")>>), NCall("try", FALSE, <<NAttr(x, "a"), x>>),
+          NCall("try", FALSE, <<NIndex(NVar("o"), x), StrLit("d")>>), NCall("try", FALSE, <<NIndex(NVar("l"), x), NIndex(NVar("m"), x), NNull>>),
+          NCall("try", FALSE, <<NCall("upper", FALSE, <<x>>), NCall("add", FALSE, <<x, NVar("n1")>>)>>),
+          NCall("try", FALSE, <<NCall("fail", FALSE, <<>>), x>>), NCall("try", FALSE, <<>>), NCall("try", FALSE, <<NVar("zz")>>),
+          NCall("can", FALSE, <<NIndex(NVar("o"), x)>>), NCall("can", FALSE, <<NAttr(x, "a")>>), NCall("can", FALSE, <<x, x>>),
+          NCall("can", FALSE, <<NCall("add", FALSE, <<x, NVar("n1")>>)>>)}
 WTpl(x) ==
     {NTpl("q", <<NInterp(0, x)>>),
      NTpl("q", <<NTLit("a"), NInterp(0, x)>>),
